@@ -55,6 +55,12 @@ def alias_maps(max_entries):
         for tg in TARGETS:
             if k != tg:
                 maps.append(((k, tg),))
+    # an identity entry (key -> itself) is an entry like any other: it pins the path it names against aliases of its prefix
+    for k in (T.path("a", "b"), T.path("a", "b", "c"), a):
+        for k2, t2 in ((a, T.I("c")), (T.path("a", "b"), T.path("c", "d")), (b, T.I("c"))):
+            if k != k2:
+                maps.append(((k, k), (k2, t2)))
+                maps.append(((k2, t2), (k, k)))
     if max_entries >= 2:
         for k1, k2 in combinations(KEYS, 2):
             for t1, t2 in product(TARGETS[:4], repeat=2):
